@@ -430,6 +430,12 @@ class ClientWorldObjectManager:
             region_state.cancel_futures(local_id)
             # If it had any orphans, they need to die.
             child_ids = region_state.collect_orphans(local_id)
+            # ...except avatars: the cascade below skips them, so they are still
+            # waiting for this parent and have to stay in the orphanage.
+            for child_id in child_ids:
+                child_obj = region_state.lookup_localid(child_id)
+                if child_obj and child_obj.PCode == PCode.AVATAR:
+                    region_state._track_orphan(child_id, local_id)
 
         # KillObject implicitly kills descendents
         # This may mutate child_ids, use the reversed iterator so we don't
